@@ -40,7 +40,8 @@ ASSUMPTIONS = ['the filesystem under the scratch directory behaves like a POSIX 
                'astropy.io.fits / get_readable_fileobj are trusted to read what was written']
 
 FORMATS = ['ds9', 'crtf', 'fits']
-DESTS = ['absent', 'file', 'symlink', 'dangling', 'directory']
+# empty_file / symlink_empty: the destination exists with zero length (e.g. what an earlier write of nothing left behind)
+DESTS = ['absent', 'file', 'symlink', 'dangling', 'directory', 'empty_file', 'symlink_empty']
 WRITE_EXT = {'ds9': ['.reg', '.ds9'], 'crtf': ['.crtf'], 'fits': ['.fits', '.fit', '.fts']}
 READ_EXT = {'ds9': ['.ds9', '.reg', '.ds9.gz', '.reg.gz'], 'crtf': ['.crtf', '.crtf.gz'],
             'fits': ['.fits', '.fit', '.fts', '.fits.gz', '.fit.gz', '.fts.gz']}
@@ -131,6 +132,13 @@ class Box:
         elif dest == 'symlink':
             with open(self.target, 'wb') as fh:
                 fh.write(OLD)
+            os.symlink(self.target, self.path)
+        elif dest == 'empty_file':
+            with open(self.path, 'wb') as fh:
+                fh.write(b'')
+        elif dest == 'symlink_empty':
+            with open(self.target, 'wb') as fh:
+                fh.write(b'')
             os.symlink(self.target, self.path)
         elif dest == 'dangling':
             os.symlink(self.target, self.path)
